@@ -318,6 +318,21 @@ func Enumerate(eo EnumOpts, emit func(Input)) (stats map[string]int) {
 			emit(Input{ID: "arith:" + strconv.Itoa(a) + ":" + l.String(), Kind: "arith", Src: src, Lang: l})
 		}
 	}
+	// combinations of interacting constructs: bash plus one of posix/mksh (alternating)
+	for a, src := range ComboInputs() {
+		idx++
+		if !in(idx) {
+			continue
+		}
+		for _, l := range []syntax.LangVariant{syntax.LangBash, Langs[1+a%2]} {
+			if _, err := Parse(src, l, true); err != nil {
+				stats["combo_noparse"]++
+				continue
+			}
+			stats["combo"]++
+			emit(Input{ID: "combo:" + strconv.Itoa(a) + ":" + l.String(), Kind: "combo", Src: src, Lang: l})
+		}
+	}
 	for li, l := range Langs {
 		if l == syntax.LangZsh {
 			continue
